@@ -109,7 +109,9 @@ pub fn hlg_oo(
 
     for ((r, g), b) in samples_r.iter_mut().zip(samples_g).zip(samples_b) {
         let mixed = r.mul_add(lr, g.mul_add(lg, *b * lb));
+        // `mixed` may be zero while `exp` is negative: keep the ratio finite (black stays black)
         let mult = mixed.powf(exp);
+        let mult = if mult > 1e9 { 1e9 } else { mult };
         *r *= mult;
         *g *= mult;
         *b *= mult;
@@ -134,7 +136,9 @@ pub fn hlg_inverse_oo(
 
     for ((r, g), b) in samples_r.iter_mut().zip(samples_g).zip(samples_b) {
         let mixed = r.mul_add(lr, g.mul_add(lg, *b * lb));
+        // `mixed` may be zero while `exp` is negative: keep the ratio finite (black stays black)
         let mult = mixed.powf(exp);
+        let mult = if mult > 1e9 { 1e9 } else { mult };
         *r *= mult;
         *g *= mult;
         *b *= mult;
